@@ -4,17 +4,15 @@ import AsynqModel.Proofs.Dedup
     (one lemma per operation kind) -/
 namespace AsynqModel.Dedup
 set_option linter.unusedSimpArgs false
+set_option linter.unusedVariables false
 
 @[simp] theorem observe_fst (fns : List FnDecl) (s : St) (op : Op) : (observe fns s op).1 = (step fns s op).1 := rfl
 @[simp] theorem observe_op (fns : List FnDecl) (s : St) (op : Op) : (observe fns s op).2.op = op := rfl
 @[simp] theorem observe_res (fns : List FnDecl) (s : St) (op : Op) : (observe fns s op).2.res = (step fns s op).2 := rfl
 
-theorem watch_gaveUp (fns : List FnDecl) (w : Watch) (ob : Obs) (h : w.gaveUp = true) : watchStep fns w ob = .ok w := by
-  simp [watchStep, h]
-
 theorem sim_start (fns : List FnDecl) (s : St) (w : Watch) (t : Nat) (h : Rel fns s w) :
     ∃ w', watchStep fns w (observe fns s (.start t)).2 = .ok w' ∧ Rel fns (observe fns s (.start t)).1 w' := by
-  simp only [watchStep, h.live, Bool.false_eq_true, ↓reduceIte, observe_op, observe_res, observe_fst]
+  simp only [watchStep, observe_op, observe_res, observe_fst]
   cases ht : s.tasks[t]? with
   | none =>
     simp only [step, ht, rel_info_none fns s w h t ht]
@@ -24,20 +22,25 @@ theorem sim_start (fns : List FnDecl) (s : St) (w : Watch) (t : Nat) (h : Rel fn
     simp only [step, ht, hx]
     by_cases hd : task.out.isSome = true
     · have : x.done = true := by rw [hr.done, hd]
-      simp only [hd, this, ↓reduceIte]
+      simp only [hd, this, Bool.true_or, ↓reduceIte]
       exact ⟨w, rfl, h⟩
     · have hd' : task.out.isSome = false := by simpa using hd
-      have : x.done = false := by rw [hr.done, hd']
-      simp only [hd', this, Bool.false_eq_true, ↓reduceIte, hr.b, beq_self_eq_true]
-      refine ⟨_, rfl, ?_⟩
-      refine rel_set fns s w h t task _ x _ ht hx ?_ ?_ ?_ ?_ <;> try rfl
-      exact ⟨fun _ => rfl, by simp [hd'], hr.reg, hr.b, hr.key⟩
-
+      have hxd : x.done = false := by rw [hr.done, hd']
+      by_cases hs : task.started = true
+      · have : x.started = true := by rw [hr.started, hs]
+        simp only [hd', hs, hxd, this, Bool.or_true, Bool.false_eq_true, ↓reduceIte]
+        exact ⟨w, rfl, h⟩
+      · have hs' : task.started = false := by simpa using hs
+        have hxs : x.started = false := by rw [hr.started, hs']
+        simp only [hd', hs', hxd, hxs, Bool.or_self, Bool.false_eq_true, ↓reduceIte, hr.b, beq_self_eq_true]
+        refine ⟨_, rfl, ?_⟩
+        refine rel_set fns s w h t task _ x _ ht hx ?_ ?_ ?_ ?_ <;> try rfl
+        exact ⟨fun _ => rfl, by simp [hd', hxd], rfl, hr.b, hr.key⟩
 
 theorem sim_resume (fns : List FnDecl) (s : St) (w : Watch) (t : Nat) (thrown : Bool) (h : Rel fns s w) :
     ∃ w', watchStep fns w (observe fns s (.resume t thrown)).2 = .ok w' ∧
       Rel fns (observe fns s (.resume t thrown)).1 w' := by
-  simp only [watchStep, h.live, Bool.false_eq_true, ↓reduceIte, observe_op, observe_res, observe_fst]
+  simp only [watchStep, observe_op, observe_res, observe_fst]
   cases ht : s.tasks[t]? with
   | none =>
     simp only [step, ht, rel_info_none fns s w h t ht]
@@ -50,21 +53,21 @@ theorem sim_resume (fns : List FnDecl) (s : St) (w : Watch) (t : Nat) (thrown : 
       simp only [hd, this, ↓reduceIte]
       exact ⟨w, rfl, h⟩
     · have hd' : task.out.isSome = false := by simpa using hd
-      have : x.done = false := by rw [hr.done, hd']
+      have hxd : x.done = false := by rw [hr.done, hd']
       cases thrown with
       | true =>
-        simp only [hd', this, Bool.false_eq_true, ↓reduceIte]
+        simp only [hd', hxd, Bool.false_eq_true, ↓reduceIte, beq_self_eq_true]
         refine ⟨_, rfl, ?_⟩
-        exact rel_wset fns s w h t task x _ ht hx ⟨fun _ => rfl, by simp [hd', this], hr.reg, hr.b, hr.key⟩
+        exact rel_wset fns s w h t task x _ ht hx ⟨fun _ => rfl, by simp [hd', hxd], hr.started, hr.b, hr.key⟩
       | false =>
-        simp only [hd', this, Bool.false_eq_true, ↓reduceIte]
+        simp only [hd', hxd, Bool.false_eq_true, ↓reduceIte, beq_self_eq_true]
         refine ⟨_, rfl, ?_⟩
         refine rel_set fns s w h t task _ x _ ht hx ?_ ?_ ?_ ?_ <;> try rfl
-        exact ⟨fun z => by simp at z ⊢, by simp [hd', this], hr.reg, hr.b, hr.key⟩
+        exact ⟨fun z => by simp at z ⊢, by simp [hd', hxd], hr.started, hr.b, hr.key⟩
 
 theorem sim_suspend (fns : List FnDecl) (s : St) (w : Watch) (t : Nat) (h : Rel fns s w) :
     ∃ w', watchStep fns w (observe fns s (.suspend t)).2 = .ok w' ∧ Rel fns (observe fns s (.suspend t)).1 w' := by
-  simp only [watchStep, h.live, Bool.false_eq_true, ↓reduceIte, observe_op, observe_res, observe_fst]
+  simp only [watchStep, observe_op, observe_res, observe_fst]
   cases ht : s.tasks[t]? with
   | none =>
     simp only [step, ht, rel_info_none fns s w h t ht]
@@ -77,37 +80,61 @@ theorem sim_suspend (fns : List FnDecl) (s : St) (w : Watch) (t : Nat) (h : Rel 
       simp only [hd, this, ↓reduceIte]
       exact ⟨w, rfl, h⟩
     · have hd' : task.out.isSome = false := by simpa using hd
-      have : x.done = false := by rw [hr.done, hd']
-      simp only [hd', this, Bool.false_eq_true, ↓reduceIte]
+      have hxd : x.done = false := by rw [hr.done, hd']
+      simp only [hd', hxd, Bool.false_eq_true, ↓reduceIte, beq_self_eq_true]
       refine ⟨_, rfl, ?_⟩
       refine rel_set fns s w h t task _ x _ ht hx ?_ ?_ ?_ ?_ <;> try rfl
-      exact ⟨fun z => by simp at z ⊢, by simp [hd', this], hr.reg, hr.b, hr.key⟩
+      exact ⟨fun z => by simp at z ⊢, by simp [hd', hxd], hr.started, hr.b, hr.key⟩
 
-
-theorem sim_dirty (fns : List FnDecl) (hs : sigsOk fns = true) (s : St) (w : Watch) (c : Spell) (h : Rel fns s w) :
-    ∃ w', watchStep fns w (observe fns s (.dirty c)).2 = .ok w' ∧
-      (w'.gaveUp = true ∨ Rel fns (observe fns s (.dirty c)).1 w') := by
-  simp only [watchStep, h.live, Bool.false_eq_true, ↓reduceIte, observe_op, observe_res, observe_fst]
+/-- `dirty()`: with arguments that bind, "nothing in flight" for exactly that call; with arguments that do not bind
+    the model either raises and changes nothing, or removes one entry of that function and thread -/
+theorem sim_dirty (fns : List FnDecl) (s : St) (w : Watch) (c : Spell) (hop : opOk fns (.dirty c) = true)
+    (h : Rel fns s w) :
+    ∃ w', watchStep fns w (observe fns s (.dirty c)).2 = .ok w' ∧ Rel fns (observe fns s (.dirty c)).1 w' := by
+  simp only [watchStep, observe_op, observe_res, observe_fst]
   cases hd : fns[c.fn]? with
   | none =>
     simp only [step, hd]
-    exact ⟨w, rfl, Or.inr h⟩
+    exact ⟨w, rfl, h⟩
   | some d =>
     simp only [step, hd]
+    simp only [opOk, hd] at hop
     cases hb : d.sig.bind (effArgs d c) c.kw with
-    | error e => exact ⟨_, rfl, Or.inl rfl⟩
+    | error e =>
+      cases hk : d.sig.key (effArgs d c) c.kw with
+      | error n => exact ⟨w, rfl, h⟩
+      | ok tup =>
+        refine ⟨_, rfl, ?_⟩
+        constructor
+        · exact h.len
+        · exact h.pt
+        · intro k rk hr
+          simp only [mget_merase]
+          by_cases e : k = { tup := tup, th := c.th, fn := c.fn }
+          · simp only [e, ↓reduceIte]
+            obtain ⟨f1, t1, _⟩ := hr
+            apply pget_ploosen_none
+            · rw [← f1, e]
+            · rw [← t1, e]
+          · simp only [e, ↓reduceIte]
+            exact pget_ploosen_mono _ _ _ _ _ (h.agree k rk hr)
+        · intro k t hm
+          simp only [mget_merase] at hm
+          split at hm
+          · contradiction
+          · exact h.wf k t hm
     | ok b =>
       obtain ⟨tup, hk⟩ := key_ok_of_bind d.sig _ _ b hb
       simp only [hk, beq_self_eq_true, ↓reduceIte]
-      refine ⟨_, rfl, Or.inr ?_⟩
+      refine ⟨_, rfl, ?_⟩
       have hkr : KeyRel fns { tup := tup, th := c.th, fn := c.fn } { fn := c.fn, th := c.th, b := b } :=
-        ⟨rfl, rfl, d, _, _, hd, hb, hk⟩
+        ⟨rfl, rfl, d, _, _, hd, hop, hb, hk⟩
       constructor
       · exact h.len
       · exact h.pt
       · intro k rk hr
-        simp only [mget_merase]
-        have := keyrel_inj fns hs _ _ _ _ hr hkr
+        simp only [mget_merase, pget_pset]
+        have := keyrel_inj fns _ _ _ _ hr hkr
         by_cases e : k = { tup := tup, th := c.th, fn := c.fn }
         · simp [e, this.mp e]
         · have e' : ¬ rk = { fn := c.fn, th := c.th, b := b } := fun x => e (this.mpr x)
@@ -118,8 +145,10 @@ theorem sim_dirty (fns : List FnDecl) (hs : sigsOk fns = true) (s : St) (w : Wat
         split at hm
         · contradiction
         · exact h.wf k t hm
-      · rfl
 
+theorem ite_tasks (c : Prop) [Decidable c] (S : St) (tb : List (Key × Nat)) :
+    (if c then ({ tasks := S.tasks, table := tb } : St) else S).tasks = S.tasks := by
+  split <;> rfl
 
 /-- the pointwise part of the relation after replacing task `t` on both sides -/
 theorem pt_set (fns : List FnDecl) (s : St) (w : Watch) (h : Rel fns s w) (t : Nat) (task' : Task) (x' : WTask)
@@ -140,11 +169,11 @@ theorem pt_set (fns : List FnDecl) (s : St) (w : Watch) (h : Rel fns s w) (t : N
   · simp only [hi, ↓reduceIte] at ha hy
     exact h.pt i a y ha hy
 
-theorem sim_complete (fns : List FnDecl) (hs : sigsOk fns = true) (s : St) (w : Watch) (t : Nat) (o : Outc)
+theorem sim_complete (fns : List FnDecl) (s : St) (w : Watch) (t : Nat) (o : Outc)
     (h : Rel fns s w) :
     ∃ w', watchStep fns w (observe fns s (.complete t o)).2 = .ok w' ∧
       Rel fns (observe fns s (.complete t o)).1 w' := by
-  simp only [watchStep, h.live, Bool.false_eq_true, ↓reduceIte, observe_op, observe_res, observe_fst]
+  simp only [watchStep, observe_op, observe_res, observe_fst]
   cases ht : s.tasks[t]? with
   | none =>
     simp only [step, ht, rel_info_none fns s w h t ht]
@@ -158,10 +187,10 @@ theorem sim_complete (fns : List FnDecl) (hs : sigsOk fns = true) (s : St) (w : 
       exact ⟨w, rfl, h⟩
     · have hd' : task.out.isSome = false := by simpa using hd
       have hxd : x.done = false := by rw [hr.done, hd']
-      simp only [hd', hxd, Bool.false_eq_true, ↓reduceIte]
-      have hag := h.agree task.key x.rk hr.key
+      simp only [hd', hxd, Bool.false_eq_true, ↓reduceIte, beq_self_eq_true]
+      refine ⟨_, rfl, ?_⟩
       have hrel' : TRel fns { task with running := false, out := some o } { x with running := false, done := true } :=
-        ⟨fun z => by simp at z, rfl, hr.reg, hr.b, hr.key⟩
+        ⟨fun z => by simp at z, rfl, hr.started, hr.b, hr.key⟩
       obtain ⟨hlen, hpt⟩ := pt_set fns s w h t _ _ hrel'
       -- no table entry other than the one under its own key can point to t
       have honly : ∀ k, mget s.table k = some t → k = task.key ∧ task.reg = true := by
@@ -169,54 +198,55 @@ theorem sim_complete (fns : List FnDecl) (hs : sigsOk fns = true) (s : St) (w : 
         obtain ⟨a, ha, hka, hra, _⟩ := h.wf k t hk
         rw [ht] at ha; injection ha with ha; subst ha
         exact ⟨hka.symm, hra⟩
-      by_cases hm : mget s.table task.key = some t
-      · -- the task still owns its entry: both sides remove it
-        have hreg := (honly _ hm).2
-        have hm' : mget w.ref x.rk = some t := by rw [← hag]; exact hm
-        simp only [hreg] at hlen hpt
-        simp only [setTask, wset, hreg, hm, hm', beq_self_eq_true, Bool.and_self, ↓reduceIte]
-        refine ⟨_, rfl, ?_⟩
-        constructor
-        · exact hlen
-        · exact hpt
-        · intro k rk hkr
-          simp only [mget_merase]
-          have := keyrel_inj fns hs _ _ _ _ hkr hr.key
+      have hother : ∀ k t0, t0 ≠ t → mget s.table k = some t0 →
+          ∃ a, (s.tasks.set t { task with running := false, out := some o })[t0]? = some a ∧
+            a.key = k ∧ a.reg = true ∧ a.out = none := by
+        intro k t0 hne hm0
+        obtain ⟨a, ha, hka, hra, hoa⟩ := h.wf k t0 hm0
+        have : ¬ t = t0 := fun e => hne e.symm
+        exact ⟨a, by simp [List.getElem?_set, this, ha], hka, hra, hoa⟩
+      -- the table after the completion, entry by entry
+      have htab : ∀ k, mget (if (task.reg && mget (setTask s t { task with running := false, out := some o }).table task.key == some t) = true
+            then { setTask s t { task with running := false, out := some o } with
+                    table := merase (setTask s t { task with running := false, out := some o }).table task.key }
+            else setTask s t { task with running := false, out := some o }).table k =
+          if mget s.table k = some t then none else mget s.table k := by
+        intro k
+        by_cases hm : mget s.table task.key = some t
+        · have hreg := (honly _ hm).2
+          simp only [setTask, hreg, hm, beq_self_eq_true, Bool.and_self, ↓reduceIte, mget_merase]
           by_cases e : k = task.key
-          · simp [e, this.mp e]
-          · have e' : ¬ rk = x.rk := fun z => e (this.mpr z)
-            simp only [e, e', ↓reduceIte]
-            exact h.agree k rk hkr
-        · intro k t0 hm0
-          simp only [mget_merase] at hm0
-          split at hm0
-          · contradiction
-          · rename_i hne
-            obtain ⟨a, ha, hka, hra, hoa⟩ := h.wf k t0 hm0
-            by_cases e : t = t0
-            · subst e
-              exact absurd (honly k hm0).1 hne
-            · exact ⟨a, by simp [List.getElem?_set, e, ha], hka, hra, hoa⟩
-        · exact h.live
-      · -- not registered, or dirtied meanwhile (entry absent or owned by a newer task): nothing is removed
-        have hm' : ¬ mget w.ref x.rk = some t := by rw [← hag]; exact hm
-        have e1 : (mget (setTask s t { task with running := false, out := some o }).table task.key == some t) = false := by
-          simpa [setTask] using hm
-        have e2 : (mget w.ref x.rk == some t) = false := by simpa using hm'
-        simp only [e1, e2, Bool.and_false, Bool.false_eq_true, ↓reduceIte]
-        refine ⟨_, rfl, ?_⟩
-        constructor
-        · exact hlen
-        · exact hpt
-        · exact h.agree
-        · intro k t0 hm0
-          obtain ⟨a, ha, hka, hra, hoa⟩ := h.wf k t0 hm0
-          by_cases e : t = t0
-          · subst e
-            have := (honly k hm0).1
-            subst this
-            exact absurd hm0 hm
-          · exact ⟨a, by simp [setTask, List.getElem?_set, e, ha], hka, hra, hoa⟩
-        · exact h.live
+          · simp [e, hm]
+          · have : ¬ mget s.table k = some t := fun z => e (honly k z).1
+            simp [e, this]
+        · have e1 : (mget s.table task.key == some t) = false := by simpa using hm
+          simp only [setTask, e1, Bool.and_false, Bool.false_eq_true, ↓reduceIte]
+          have : ¬ mget s.table k = some t := fun z => hm (by rw [← (honly k z).1]; exact z)
+          simp [this]
+      constructor
+      · simp only [wset, ite_tasks]; simpa [setTask] using hlen
+      · simp only [wset, ite_tasks]; simpa [setTask] using hpt
+      · intro k rk hkr
+        rw [htab k]
+        simp only [wset, pget_pset]
+        have hag := h.agree k rk hkr
+        have := keyrel_inj fns _ _ _ _ hkr hr.key
+        by_cases e : rk = x.rk
+        · subst e
+          simp only [↓reduceIte, List.mem_map]
+          exact ⟨mget s.table k, hag, rfl⟩
+        · have e' : ¬ k = task.key := fun z => e (this.mp z)
+          have : ¬ mget s.table k = some t := fun z => e' (honly k z).1
+          simp only [e, this, ↓reduceIte]
+          exact hag
+      · intro k t0 hm0
+        rw [htab k] at hm0
+        split at hm0
+        · contradiction
+        · rename_i hne
+          have e : t0 ≠ t := fun z => hne (by rw [← z]; exact hm0)
+          obtain ⟨a, ha, hr'⟩ := hother k t0 e hm0
+          refine ⟨a, ?_, hr'⟩
+          simp only [ite_tasks]; simpa [setTask] using ha
 
 end AsynqModel.Dedup
